@@ -30,3 +30,30 @@ Theorem c17_redirects_exact :
       \/ (exists r, In (r, x) reds /\ Clo edges flagged r).
 Proof. exact analyze_exact. Qed.
 Print Assumptions c17_redirects_exact.
+
+(* Stores that already hold marks (templates stored with need_pre_expand set, or marked by an earlier analysis): the
+   worklist is seeded with the classifier's flags AND the marks found, so the theorems above apply with
+   [flagged] := flags ++ already marked; in particular a second analysis after more templates were stored marks every
+   includer of a previously marked template.  Instance: A flagged, B includes A, both marked by a first run; C, stored
+   later, includes B and is marked by the second run. *)
+Example c17_reanalysis_example :
+  let edges := [(0, 1); (1, 2)] in              (* B includes A, C includes B *)
+  fst (propagate 3 edges [0; 1]) = [2; 0; 1] /\ forall x, In x (fst (propagate 3 edges [0; 1])) <-> Clo edges [0; 1] x.
+Proof. split; [vm_compute; reflexivity|]. apply (proj2 (c17_closure_exact 3 [(0, 1); (1, 2)] [0; 1]
+  ltac:(intros u t [H|[H|[]]]; inversion H; auto) ltac:(intros f [<-|[<-|[]]]; auto)
+  ltac:(repeat constructor; cbn; intuition congruence))). Qed.
+
+(* BEGIN PINS (tools/repin.py) *)
+From WTP Require Import Gen.GenPins.
+Module Pins.
+Import String.
+(* The models of this property were transcribed from: core.py:Wtp.analyze_templates.
+   Gen/GenPins.v holds the digests of these functions in the current source (translate/pins.py: syntax tree without
+   docstrings, comments and layout).  A different digest means that the model is no longer known to describe the
+   code; the check then reports the broken tie and looks for a failing input. *)
+Theorem c17_models_describe_the_current_source :
+  pin_analyze_templates = "6e2212fed7f132a7"%string.
+Proof. reflexivity. Qed.
+Print Assumptions c17_models_describe_the_current_source.
+End Pins.
+(* END PINS *)
